@@ -60,7 +60,61 @@ def units(tier):
     us = [{"specs": [s.to_json() for s in ch], "maxtok": maxtok, "seed": seed() * 1000 + i}
           for i, ch in enumerate(chunks(specs, 48))]
     us.append({"kind": "deep"})
+    us.append({"kind": "custom"})
     return us
+
+
+# user recognizers and list (non-string) inputs: membership is known by construction
+def _rec_int(input, pos):
+    return input[pos:pos + 1] if isinstance(input[pos], int) else None
+
+
+def _rec_str(input, pos):
+    return input[pos:pos + 1] if isinstance(input[pos], str) else None
+
+
+def _rec_letter(input, pos):
+    return input[pos] if input[pos].isalpha() else None
+
+
+CUSTOM = [
+    # (grammar, recognizers, ws, is_sentence, inputs)
+    ("S: INT STRING+ INT | INT;\nterminals\nINT: ;\nSTRING: ;\n", {"INT": _rec_int, "STRING": _rec_str}, None,
+     lambda x: len(x) >= 1 and isinstance(x[0], int) and not isinstance(x[0], bool) and
+     (len(x) == 1 or (len(x) >= 3 and isinstance(x[-1], int) and all(isinstance(e, str) for e in x[1:-1]))),
+     [[], [1], [1, "a"], [1, "a", "b"], [1, "a", 2, 3], ["a"], [1, 2], [1, "a", "b", 2], [1, "a", 2], [1, "a", None]]),
+    ("S: L '+' L | L;\nterminals\nL: ;\n", {"L": _rec_letter}, " ",
+     lambda x: x.replace(" ", "") != "" and all(c.isalpha() for c in x.replace(" ", "").split("+")) and
+     all(len(c) == 1 for c in x.replace(" ", "").split("+")) and x.count("+") <= 1 and
+     " ".join(x.split()) .replace(" + ", "+").replace("+ ", "+").replace(" +", "+").count(" ") == 0,
+     ["", "a", "a+b", "a +", "a + b", "+", "a+", " a ", "a+b+c", "a b", "1"]),
+]
+
+
+def run_custom(res):
+    st = res["stats"]
+    for gtxt, recs, ws, is_sentence, inputs in CUSTOM:
+        g = Grammar.from_string(gtxt, recognizers=recs)
+        p = GLRParser(g, ws=ws)
+        st["parsers"] += 1
+        for inp in inputs:
+            case = {"grammar": gtxt, "recognizers": "user functions reading input[pos]", "input": repr(inp)}
+            res["evaluations"] += 1
+            try:
+                p.parse(inp)
+                got = True
+            except parglare.SyntaxError:
+                got = False
+            except Exception as e:
+                res["violations"].append({"kind": "foreign-exception", "case": case,
+                                          "observed": type(e).__name__ + ": " + str(e)[:100]})
+                continue
+            st["accepted" if got else "rejected"] += 1
+            res["nontrivial"].append(h16(case))
+            if got != bool(is_sentence(inp)):
+                res["violations"].append({"kind": "glr-accepts-non-sentence" if got else "glr-rejects-sentence",
+                                          "case": case})
+    return res
 
 
 # long inputs: the depth of the derivation must not matter (sentence, unambiguous list grammars)
@@ -106,6 +160,8 @@ def run_unit(u):
     st = res["stats"]
     if u.get("kind") == "deep":
         return run_deep(res)
+    if u.get("kind") == "custom":
+        return run_custom(res)
     rng = random.Random(u["seed"])
     for sj in u["specs"]:
         spec = gen.GSpec.from_json(sj)
